@@ -52,6 +52,20 @@ def join_rows(m, multi=False, maxrun=3):
     return rows
 
 
+def mixed_rows(m, cap):
+    """one row that joins a run AND splits another column (the width may stay the same while the layout changes)"""
+    w = m.width()
+    rows = []
+    for (i, j) in runs_of(m):
+        for a in range(i, j):
+            b = a + 1
+            for k in range(w):
+                if a <= k <= b or w - 1 + 1 > cap:
+                    continue
+                rows.append((f'join{a}-{b}+split{k}', [A.JOIN if a <= x <= b else (A.SPLIT if x == k else A.NULL_I) for x in range(w)]))
+    return rows
+
+
 def term_rows(m):
     w = m.width()
     if w <= 1:
@@ -73,15 +87,15 @@ def content_row(m, kind, n, seed, with_key=False):
         return [A.BAR(n * 5 + seed)] * w
     if kind == 'k':     # a clef on every kern-like column (agnostic encodings need a clef in force)
         return [A.V(A.CLEFS[(n + i + seed) % len(A.CLEFS)], 'CLEF') if types[i] in A.KERN_LIKE else A.NULL_I for i in range(w)]
-    if kind in 'KTCM':   # K key signature / T time signature on every kern-like column; C clef / M time signature on the first one only
+    if kind in 'KTCMDN':   # K key signature / T time signature on every kern-like column; C clef / M time signature on the first one only; D clef / N key signature on the last one only
         keys = ['*k[f#]', '*k[b-]', '*k[]', '*k[f#c#]']
         times = ['*M4/4', '*M3/4', '*M6/8', '*M2/2']
         kern_cols = [i for i in range(w) if types[i] in A.KERN_LIKE]
         out = []
         for i in range(w):
-            if i not in kern_cols or (kind in 'CM' and i != kern_cols[0]):
+            if i not in kern_cols or (kind in 'CM' and i != kern_cols[0]) or (kind in 'DN' and i != kern_cols[-1]):
                 out.append(A.NULL_I)
-            elif kind == 'K':
+            elif kind in 'KN':
                 out.append(A.V(keys[(n + seed) % 4], 'KEY_SIGNATURE'))
             elif kind in 'TM':
                 out.append(A.V(times[(n + seed) % 4], 'TIME_SIGNATURE'))
@@ -117,7 +131,7 @@ def seq_model(headers, seq, seed, cap=6, pre=(), with_key=False, close=True):
         w = m.width()
         if w == 0:
             return None
-        if s[0] in 'dicbznkKTCM':
+        if s[0] in 'dicbznkKTCMDN':
             m.add(content_row(m, s[0], n, seed, with_key))
         elif s == 'g':
             m.add_g(A.GCOMM[(n + seed) % len(A.GCOMM)])
@@ -137,6 +151,12 @@ def seq_model(headers, seq, seed, cap=6, pre=(), with_key=False, close=True):
             if k >= w or w <= 1:
                 return None
             m.add([A.TERM if i == k else A.NULL_I for i in range(w)])
+        elif s[0] == 'Y':      # join columns k,k+1 and split the last column in the same row
+            k = int(s[1:])
+            sp = m.spines()
+            if k + 2 >= w or sp[k] != sp[k + 1]:
+                return None
+            m.add([A.JOIN if i in (k, k + 1) else (A.SPLIT if i == w - 1 else A.NULL_I) for i in range(w)])
         else:
             raise ValueError(s)
     if close:
@@ -174,7 +194,7 @@ def chunks(seq, n):
 def struct_menu(m, n, seed, cap, content='db', pairs=False, multi=False, terms=True):
     """default menu: palette content rows + every split / join / single termination enabled in state m"""
     rows = [(k, content_row(m, k, n, seed)) for k in content]
-    rows += split_rows(m, cap, pairs) + join_rows(m, multi)
+    rows += split_rows(m, cap, pairs) + join_rows(m, multi) + mixed_rows(m, cap)
     if terms:
         rows += term_rows(m)
     return rows
